@@ -227,8 +227,8 @@ CLAIMED = {
             'duplication, order preserved; everything appended before close is applied as a prefix once the flusher stops, and '
             'after close the flusher always can stop; per-producer program order; store and outcomes equal the synchronous twin; '
             'failures never block later ops; the lock is never held across a wrapped call; once the flusher has stopped nothing '
-            'reaches the wrapped cassette any more (C12_stopped_is_final). Broken variants are refuted. Sequential, unmodelled part of '
-            'the tie: equal-but-different values and bursts of thousands of writes against recording directly.',
+            'reaches the wrapped cassette any more (C12_stopped_is_final). The caller\'s side (PlaybackModel/AsyncCaller.lean: closed recordings, save, abort - an abort is never forwarded, a write to a finalised recording is refused before it is buffered): what the wrapper buffers for one caller\'s requests leaves, per recording, the data / metadata / saved snapshot of the same requests made directly, with the same outcomes seen by the caller (C12_caller_side), end to end under every schedule (C12_equals_direct_with_aborts); tied by the sequential family (real synchronous and asynchronous runs vs `direct` / `forward`). Broken variants are refuted. Sequential, unmodelled part of '
+            'the tie: typed equal-but-different values under non-text keys and bursts of thousands of writes against recording directly.',
             'Partial: CPython switch points are explored within bounds (all schedules with <= k pre-emptions on 5 workloads plus '
             'random workloads and schedules at line and byte-code granularity); close()\'s join(timeout) expiring under a slow '
             'store is wall-clock behaviour outside the model; list.append and attribute stores assumed atomic; known finding K9 '
